@@ -436,7 +436,7 @@ def data_strategy(draw, per_dim, max_m):
 
 
 def uniform_strategy(tier):
-    maxN = 350 if tier == "quick" else 520
+    maxN = 320 if tier == "quick" else 520     # build_R_matrix costs ~2.5e-5 s * N^2 (debug-string formatting per pair)
 
     @st.composite
     def s(draw):
@@ -450,7 +450,7 @@ def uniform_strategy(tier):
             case.update(lmin=lmin, lmax=lmax)
             per_dim = [lmax] * d
         else:
-            big = draw(st.sampled_from([False] * 4 + [True]))      # aim at the N >= 200 path
+            big = draw(st.sampled_from([False] * (9 if tier == "quick" else 5) + [True]))      # aim at the N >= 200 path
             while True:
                 if d == 1:
                     lv = [draw(st.integers(1, 8 if big else 6))]
